@@ -169,8 +169,16 @@ def one_graph(args):
                 beyond = lpath
         with open(os.path.join(root, 'Manifest'), 'wb') as f:
             f.write(fm.manifest_bytes(ents))
+        # a Manifest nobody references yet in one of the directories: update and scan adopt it on their way -
+        # the boundaries of the file system stay where they are
+        unreg = None
+        if len(ids) > 1 and rng.random() < 0.4:
+            d = rng.choice(ids[1:])
+            with open(os.path.join(real[d], 'Manifest'), 'wb') as f:
+                f.write(fm.manifest_bytes([fm.make_entry('DATA', 'f', b'data%d' % d, ['SHA1'])]))
+            unreg = path[d]
         base = {'dirs': alld, 'edges': [list(e) for e in sorted(eff_edges)], 'start': 1, 'foreign': foreign,
-                'meta': {'seed': seed, 'idx': idx, 'links': links, 'ignored': ignored, 'beyond': beyond, 'flink': flink, 'hidden': hidden, 'paths': path}}
+                'meta': {'seed': seed, 'idx': idx, 'links': links, 'ignored': ignored, 'beyond': beyond, 'flink': flink, 'hidden': hidden, 'paths': path, 'unreg': unreg}}
         old = signal.signal(signal.SIGALRM, _alarm)
         try:
             for op in ('verify', 'update', 'scan'):
